@@ -7,3 +7,4 @@ pub mod record;
 pub mod scm;
 pub mod words;
 pub mod report;
+pub mod textspec;
